@@ -1051,9 +1051,12 @@ func compileRepeatStmt(context *funcContext, stmt *ast.RepeatStmt) { // {{{
 } // }}}
 
 func compileBreakStmt(context *funcContext, stmt *ast.BreakStmt) { // {{{
+	refUpvalue := false
 	for block := context.Block; block != nil; block = block.Parent {
+		// the jump leaves every block up to and including the loop body: close if any of them has captured locals
+		refUpvalue = refUpvalue || block.RefUpvalue
 		if label := block.BreakLabel; label != labelNoJump {
-			if block.RefUpvalue {
+			if refUpvalue {
 				context.Code.AddABC(OP_CLOSE, block.Parent.LocalVars.LastIndex(), 0, 0, sline(stmt))
 			}
 			context.Code.AddASbx(OP_JMP, 0, label, sline(stmt))
